@@ -100,7 +100,7 @@ W = [
  ("fs:head-missing-key-code", [mb(), head("a")],
   "head_object of a missing key answers NoSuchBucket instead of NoSuchKey"),
  ("fs:missing-bucket-reported-as-missing-key", [get("a")],
-  "get_object/delete_object/copy source (copy_object, upload_part_copy) in a bucket that does not exist answer NoSuchKey instead of NoSuchBucket (delete_object: repaired by fe75a0e)"),
+  "get_object/delete_object/copy source (copy_object, upload_part_copy) in a bucket that does not exist answer NoSuchKey instead of NoSuchBucket (delete_object: repaired by 20fee59)"),
  ("fs:delete-objects-omits-missing-keys", [mb(), put("a", 1, 10), dels(["a", "b"])],
   "delete_objects reports only keys that existed as Deleted; S3 reports every requested key"),
  ("fs:delete-objects-in-missing-bucket", [dels(["a"])],
@@ -122,11 +122,11 @@ FIXED = {
  "fs:put-into-missing-bucket": "1d0f501", "fs:create-upload-not-validated": "1d0f501",
  "fs:stale-metadata-after-overwrite": "b01fec8", "fs:metadata-survives-delete": "b01fec8",
  "fs:head-missing-key-code": "d6f1a3c",
- "fs:delete-nonempty-bucket": "dbc4627",
- "fs:delete-missing-key-error": "fe75a0e",
- "fs:missing-bucket-reported-as-missing-key": "391a940",
- "fs:delete-objects-in-missing-bucket": "902249e",
- "fs:head-without-etag": "3751248",
+ "fs:delete-nonempty-bucket": "24de822",
+ "fs:delete-missing-key-error": "20fee59",
+ "fs:missing-bucket-reported-as-missing-key": "cc244fc",
+ "fs:delete-objects-in-missing-bucket": "0f31b61",
+ "fs:head-without-etag": "42c2f29",
 }
 # repairs whose text says explicitly that it describes the code before the repair
 BEFORE = {"fs:head-missing-key-code", "fs:delete-missing-key-error", "fs:missing-bucket-reported-as-missing-key",
